@@ -217,6 +217,20 @@ func run(o options) int {
 	if doFixture {
 		fx := <-fixCh
 		selftest, selfFail = evalFixture(fx, fxSrc, ruleIDs)
+		if os.Getenv("VERIFCHK_FIXTURE_DEBUG") == "funcs" && fx.prog != nil {
+			for _, f := range fx.prog.Funcs {
+				if strings.Contains(f.String(), "zzFixture") {
+					fmt.Println("  fixture func:", f.String())
+				}
+			}
+		}
+		if os.Getenv("VERIFCHK_FIXTURE_DEBUG") != "" {
+			for _, ob := range fx.obs {
+				if ob.fixture {
+					fmt.Printf("  fixture: [%s] %s %s @%s %s\n", ob.Verdict, ob.Rule, ob.Construct, ob.Pos, ob.Detail)
+				}
+			}
+		}
 	}
 
 	// Vacuity: each rule must have seen at least the number of instances confirmed by hand.
